@@ -1061,7 +1061,17 @@ class FnRun:
     def read(self, p, mem, guard):
         c, path = self.place_path(p, mem, guard)
         if c not in mem:
-            raise Unsupported('read of uninitialised local %s in %s' % (p, self.fn.name))
+            root = p
+            while root[0] != 'local':
+                root = root[1]
+            ty = self.fn.locals.get(root[1])
+            if getattr(self, 'havoc_uninit', False) and ty is not None:
+                # loop-step mode: a local that is live at the loop head but was not given by the caller holds an
+                # ARBITRARY value of its type (over-approximation of every pre-state; sound for 'holds')
+                mem[c] = self.E.sym('pre._%d' % root[1], ty, mem)
+                self.havoced = getattr(self, 'havoced', []) + [root[1]]
+            else:
+                raise Unsupported('read of uninitialised local %s in %s' % (p, self.fn.name))
         return self.E.read_path(mem[c], path, mem, guard, self.where())
 
     def write(self, p, v, mem, guard):
@@ -1173,6 +1183,11 @@ class FnRun:
         cur_c, cur_p = c, ()
         for st in path:
             if st[0] == 'd':
+                if cur_c not in mem and getattr(self, 'havoc_uninit', False):
+                    for n_, c_ in self.cells.items():
+                        if c_ == cur_c and self.fn.locals.get(n_) is not None:
+                            mem[cur_c] = E.sym('pre._%d' % n_, self.fn.locals[n_], mem)
+                            self.havoced = getattr(self, 'havoced', []) + [n_]
                 v = E.read_path(mem[cur_c], cur_p, mem, guard, self.where())
                 if not isinstance(v, Ref):
                     if isinstance(v, Opaque):
@@ -1259,6 +1274,7 @@ class FnRun:
         succ, rpo, back, encl = self.analyse_cfg()
         self.cut_states = []
         if start_bb is not None:
+            self.havoc_uninit = True
             for n, v in (init or {}).items():
                 self.mem0[self.cell(n, self.mem0)] = v
         pending = {}     # node -> list of (guard, mem)
@@ -1716,6 +1732,8 @@ def _resolve(self, func, argv=None):
         if len(good) > 1:
             # several impl blocks in that file: keep those whose callee name suffix matches exactly
             good = [i for i in good if M.header_name(self.ix.offsets[i][0]).endswith('::' + base)]
+    if len(good) > 1 and len({self.ix.offsets[i][0] for i in good}) == 1:
+        good = good[:1]        # a `const fn` is dumped twice (runtime and const-eval MIR) with the same header
     if len(good) == 1:
         return self.ix.get(good[0])
     if len(good) > 1:
